@@ -73,7 +73,7 @@ struct State {
     work: u64,
 }
 
-thread_local! {
+std::thread_local! {
     static STATE: RefCell<State> = RefCell::new(State {
         cfg: ExecConfig::default(),
         stats: ExecStats::default(),
@@ -167,9 +167,31 @@ pub fn probe(site: &'static str) {
     }
 }
 
+/// `std::thread` as the simulator provides it (used by the substituted source tree).
+pub mod thread {
+    pub use shuttle::thread::*;
+}
+
+pub use shuttle::thread_local;
+
 pub mod sync {
     use super::{sig, task_id, STATE};
     use std::ops::Deref;
+
+    // Everything of std::sync that is not a scheduling concern is passed through unchanged
+    // (Arc, Weak, PoisonError, LockResult, TryLockError, ...); explicit items below shadow the glob.
+    pub use std::sync::*;
+
+    pub use shuttle::sync::{Barrier, BarrierWaitResult, Condvar, Mutex, MutexGuard, RwLock, RwLockReadGuard, RwLockWriteGuard, WaitTimeoutResult};
+
+    /// every atomic operation is a scheduling point
+    pub mod atomic {
+        pub use shuttle::sync::atomic::*;
+    }
+
+    pub mod mpsc {
+        pub use shuttle::sync::mpsc::*;
+    }
 
     /// Shuttle-backed stand-in for `std::sync::LazyLock` in `static` position.
     pub struct LazyLock<T: Sync + 'static> {
@@ -248,20 +270,30 @@ pub mod sync {
         }
     }
 
-    /// Shuttle-backed stand-in for `std::sync::OnceLock` in `static` position
-    /// (not used by the repository today; provided so that a plausible
-    /// refactoring of the lazies still builds under the guard).
+    /// Shuttle-backed stand-in for `std::sync::OnceLock` (not used by the repository today;
+    /// provided so that a plausible refactoring of the lazies is still under the simulator's control).
     pub struct OnceLock<T: Sync + Send + 'static> {
         once: shuttle::sync::Once,
         cell: shuttle::sync::Mutex<Option<&'static T>>,
     }
 
     impl<T: Sync + Send + 'static> OnceLock<T> {
-        pub fn new() -> Self {
+        pub const fn new() -> Self {
             OnceLock { once: shuttle::sync::Once::new(), cell: shuttle::sync::Mutex::new(None) }
         }
         pub fn get(&self) -> Option<&T> {
             *self.cell.lock().unwrap()
+        }
+        pub fn set(&self, value: T) -> Result<(), T> {
+            let mut slot = Some(value);
+            self.once.call_once(|| {
+                let v: &'static T = Box::leak(Box::new(slot.take().unwrap()));
+                *self.cell.lock().unwrap() = Some(v);
+            });
+            match slot {
+                None => Ok(()),
+                Some(v) => Err(v),
+            }
         }
         pub fn get_or_init<F: FnOnce() -> T>(&self, f: F) -> &T {
             self.once.call_once(|| {
